@@ -1,5 +1,6 @@
 import Driver.Common
 import SSV.Model.Handshake
+import SSV.Model.HandshakeHttp
 open SSV SSV.HS
 
 /-
@@ -105,6 +106,24 @@ def nonesOp (cs : Chunks) : String :=
   | .ok a => s!"ok {showAddr a} {toHexField s.stream}"
   | .error e => s!"err:{showErr e} - -"
 
+def httpsOp (tk : Option (List (Bytes × Bytes))) (cs : Chunks) (act : String) : String :=
+  let m : M (Bytes × Addr) := do
+    let r ← serverHandleH SSV.Gen.C07.connectKeepsReadAhead tk
+    if act == "P" then proceedH else if act.startsWith "A" then abortH else pure ()
+    pure r
+  let (res, s) := m { inp := cs }
+  match res with
+  | .ok (u, a) =>
+    let st := if act == "P" then toHexField s.stream else "-"
+    s!"ok {showAddr a} {toHexField u} {toHexField s.out} {st}"
+  | .error e => s!"err:{showErr e} - - {toHexField s.out} -"
+
+def httpcOp (a : Addr) (hdr : Bytes) (cs : Chunks) : String :=
+  let (res, s) := (clientConnectH a hdr) { inp := cs }
+  match res with
+  | .ok () => s!"ok {toHexField s.out} {toHexField s.stream}"
+  | .error e => s!"err:{showErr e} {toHexField s.out} -"
+
 def b? (s : String) : Option Bool := if s == "1" then some true else if s == "0" then some false else none
 
 def stepC07 (st : Unit) (line : String) : Unit × String :=
@@ -129,6 +148,35 @@ def stepC07 (st : Unit) (line : String) : Unit × String :=
   | ["reply", code] =>
     match code.toNat? with
     | some c => (st, toString (replyFromDialResultCode c))
+    | none => bad
+  | ["https", users, chunks, act] =>
+    match parseChunks chunks with
+    | none => bad
+    | some cs =>
+      if users == "noauth" then (st, httpsOp none cs act)
+      else match parseUsers users with
+        | some us => (st, httpsOp (some (tokenMap b64 us)) cs act)
+        | none => bad
+  | ["httpc", addr, up, chunks] =>
+    match parseAddrField addr, parseChunks chunks with
+    | some a, some cs =>
+      if up == "-" then (st, httpcOp a [] cs)
+      else match parseUsers up with
+        | some [(u, p)] => (st, httpcOp a (clientAuthHeader b64 u p) cs)
+        | _ => bad
+    | _, _ => bad
+  | ["b64", x] =>
+    match ofHex? x with
+    | some b => (st, toHexField (b64 b))
+    | none => bad
+  | ["addrtext", addr] =>
+    match parseAddrField addr with
+    | some a =>
+      let t := addrString a
+      let back := match parseAddr t with
+        | some b => showAddr b
+        | none => "none"
+      (st, s!"{toHexField t} {back} {if httpCarriable a then 1 else 0}")
     | none => bad
   | _ => bad
 
